@@ -100,6 +100,8 @@ impl<'a> PrettyPrinter<'a> {
     }
 
     fn convert_expr_impl(&'a self, ctx: Context, expr: Expr<'a>) -> ArenaDoc<'a> {
+        let embedded = ctx.embedded;
+        let ctx = ctx.embedded(false);
         match expr {
             Expr::Text(t) => self.convert_text(t),
             Expr::Space(s) => self.convert_space(s),
@@ -139,7 +141,7 @@ impl<'a> PrettyPrinter<'a> {
             Expr::Str(s) => self.convert_trivia(s),
             Expr::Code(c) => self.convert_code_block(ctx, c),
             Expr::Content(c) => self.convert_content_block(ctx, c),
-            Expr::Parenthesized(p) => self.convert_parenthesized(ctx, p),
+            Expr::Parenthesized(p) => self.convert_parenthesized(ctx, p, embedded),
             Expr::Array(a) => self.convert_array(ctx, a),
             Expr::Dict(d) => self.convert_dict(ctx, d),
             Expr::Unary(u) => self.convert_unary(ctx, u),
